@@ -65,7 +65,8 @@ Record Inv (s : state) (m : mstate) : Prop := {
   i_subp_uniq : forall t t' id tp c tp' c',
              sub_pending s t id tp c -> sub_pending s t' id tp' c' -> t = t';
   i_fan : forall t tp d rest pr, get_pc s t = PubFan tp d rest pr ->
-             NoDup (ids_of rest) /\ incl rest (entries s) /\ (0 < npub s)%nat;
+             NoDup (ids_of rest) /\ incl rest (entries s) /\ (0 < npub s)%nat /\
+             nth_error (m_pubs m) (pred (npub s)) = Some (tp, d);
   i_q : forall c mg q, queued s c mg q ->
              (q < npub s)%nat /\ In (mk (m_id mg) (m_topic mg) c) (alloc s) /\
              (get_lastq s (m_id mg) <= q)%nat;
@@ -807,7 +808,9 @@ Proof.
   - intros t1 t2 id tp1 c1 tp2 c2 H1 H2. apply Hsub in H1. apply Hsub in H2.
     exact (i_subp_uniq _ _ HI _ _ _ _ _ _ _ H1 H2).
   - intros t' tp' d' rest pr H. destruct (Hfan _ _ _ _ _ H) as [-> [-> [-> [-> ->]]]].
-    split; [exact (i_ent_nd _ _ HI)|]. split; [apply incl_refl|cbn; lia].
+    split; [exact (i_ent_nd _ _ HI)|]. split; [apply incl_refl|]. split; [cbn; lia|].
+    cbn [m_pubs npub X set_pc set_lock pred]. rewrite nth_error_app2 by (rewrite (i_pubs_len _ _ HI); lia).
+    rewrite (i_pubs_len _ _ HI), Nat.sub_diag. reflexivity.
   - intros c mg q H. destruct (i_q _ _ HI c mg q H) as [H1 H2]. split; [cbn; lia|exact H2].
   - intro id. pose proof (i_lastq _ _ HI id). cbn [npub X]. cbn. cbn in H. unfold get_lastq in *. cbn. lia.
   - intros t' tp' d' rest pr H id Hin. destruct (Hfan _ _ _ _ _ H) as [-> [-> [-> [-> ->]]]]. split.
@@ -1084,4 +1087,145 @@ Proof.
   - unfold get_lastq. rewrite Hl. exact (i_lastq _ _ HI id).
   - intros c mg q [ch [H1 H2]] _. rewrite Hc in H1. assert (Hq : queued s c mg q) by (exists ch; tauto).
     exact (proj1 (i_q _ _ HI _ _ _ Hq)).
+Qed.
+
+Lemma inv_len_hold : forall s m t, Inv s m -> get_pc s t = LenHold ->
+  exists m', mon_run m (snd (step_task s t)) = MOk m' /\ Inv (fst (step_task s t)) m'.
+Proof.
+  intros s m t HI Hpc. unfold step_task. rewrite Hpc. cbn [acquired fst snd mon_run].
+  pose proof (i_pend _ _ HI t) as Hp. unfold pend_ok in Hp. rewrite Hpc in Hp. destruct Hp as [p0 [Hp1 [Hp2 Hp3]]].
+  exists (set_pend m (remove_key (m_pend m) t)). split.
+  { unfold mon_step. rewrite Hp1, Hp2. pose proof (count_bound _ _ HI). rewrite (i_nsub _ _ HI).
+    destruct (blen (entries s) + p_n p0 <=? blen (alloc s)) eqn:E; [reflexivity|lia]. }
+  refine (inv_release s m t (entries s) Idle _ HI _ _ _ _ _ _ _ _ _ _ _ _ _ _ _); try reflexivity.
+  - rewrite Hpc. reflexivity.
+  - intros. rewrite Hpc. discriminate.
+  - apply incl_refl.
+  - exact (i_ent_nd _ _ HI).
+  - left. reflexivity.
+  - intros t' Hn. cbn. rewrite lookup_remove_key. destruct (t =? t') eqn:E; [lia|reflexivity].
+  - unfold pend_ok. erewrite gp_eq by reflexivity. cbn. rewrite lookup_remove_key, Z.eqb_refl. reflexivity.
+  - exact (i_dead_nd _ _ HI).
+  - intros id n H. left. exact H.
+Qed.
+
+Lemma inv_unsub_hold : forall s m t id, Inv s m -> get_pc s t = UnsubHold id ->
+  exists m', mon_run m (snd (step_task s t)) = MOk m' /\ Inv (fst (step_task s t)) m'.
+Proof.
+  intros s m t id HI Hpc. unfold step_task. rewrite Hpc. cbn [acquired fst snd mon_run].
+  pose proof (i_pend _ _ HI t) as Hp. unfold pend_ok in Hp. rewrite Hpc in Hp. destruct Hp as [p0 [Hp1 [Hp2 Hp3]]].
+  set (f := fun e => negb (e_id e =? id)).
+  set (es := filter f (entries s)).
+  set (removed := negb (blen es =? blen (entries s))).
+  set (m0 := set_pend m (remove_key (m_pend m) t)).
+  assert (Hcommon : forall m', m_known m' = m_known m -> m_pubs m' = m_pubs m -> m_last m' = m_last m ->
+            m_closed m' = m_closed m -> m_nsub m' = m_nsub m -> m_pend m' = remove_key (m_pend m) t ->
+            blen (m_dead m) <= blen (m_dead m') -> NoDup (map fst (m_dead m')) ->
+            (forall id' n, lookup (m_dead m') id' = Some n ->
+               lookup (m_dead m) id' = Some n \/ (id' = id /\ n = npub s /\ (removed = true \/ p_n p0 = 1))) ->
+            Inv (release_to (set_entries s es) t Idle) m').
+  { intros m' Hk Hpu Hla Hcl Hns Hpe Hdl Hdn Hd.
+    apply (inv_release s m t es Idle m' HI); try assumption.
+    - rewrite Hpc. reflexivity.
+    - intros. rewrite Hpc. discriminate.
+    - intros e He. apply filter_In in He. tauto.
+    - apply filter_ids_nodup. exact (i_ent_nd _ _ HI).
+    - left. reflexivity.
+    - intros t' Hn. rewrite Hpe, lookup_remove_key. destruct (t =? t') eqn:E; [lia|reflexivity].
+    - unfold pend_ok. erewrite gp_eq by reflexivity. rewrite Hpe, lookup_remove_key, Z.eqb_refl. reflexivity.
+    - intros id' n H. destruct (Hd id' n H) as [H1|[-> [-> Hwhy]]]; [left; exact H1|right].
+      apply (dead_ok_intro s m); try reflexivity; try exact HI.
+      + destruct Hwhy as [Hr|Hn1]; [right|left; exact (Hp3 Hn1)].
+        destruct (in_dec Z.eq_dec id (ids_of (entries s))) as [Hi|Hi]; [exact Hi|]. exfalso.
+        assert (es = entries s).
+        { apply filter_all_true. intros e He. unfold f. destruct (e_id e =? id) eqn:E; [|reflexivity].
+          exfalso. apply Hi. apply in_ids_of. exists e. split; [exact He|lia]. }
+        unfold removed in Hr. rewrite H0 in Hr. rewrite Z.eqb_refl in Hr. discriminate.
+      + cbn. apply filter_ids_notin. intros e He. unfold f. rewrite He, Z.eqb_refl. reflexivity.
+      + intros t' tp c Hs. destruct (Z.eq_dec t t') as [<-|Hn].
+        * exfalso. unfold sub_pending in Hs. erewrite gp_eq in Hs by reflexivity. destruct Hs; discriminate.
+        * exact (proj1 (subp_neq (release_to (set_entries s es) t Idle) s t Idle t' id tp c eq_refl Hn) Hs). }
+  unfold mon_step. rewrite Hp1, Hp2. fold es. fold removed.
+  destruct (removed || (p_n p0 =? 1)) eqn:Em.
+  - eexists. split; [reflexivity|]. apply Hcommon; try reflexivity.
+    + cbn. apply mark_dead_len.
+    + cbn. apply mark_dead_nodup. exact (i_dead_nd _ _ HI).
+    + intros id' n H. cbn in H. rewrite mark_dead_lookup in H. destruct (lookup (m_dead m) id') eqn:E; [left; exact H|].
+      destruct (id =? id') eqn:E1; [|discriminate]. right. inversion H. split; [lia|]. split; [apply (i_pubs_len _ _ HI)|].
+      destruct removed; [left; reflexivity|right]. cbn in Em. lia.
+  - exists m0. split; [reflexivity|]. apply Hcommon; try reflexivity;
+      try (exact (i_dead_nd _ _ HI)); try (intros id' n H; left; exact H).
+Qed.
+
+(** ---- publish returns (directly, or after its prune phase) ---- *)
+Lemma inv_pub_return : forall s m t es' p,
+  Inv s m -> holding (get_pc s t) = true -> (forall id tp c, get_pc s t <> SubHold id tp c) ->
+  lookup (m_pend m) t = Some p -> (exists tp' d', p_op p = OPub tp' d') -> p_lin p = true ->
+  (forall id, In id (p_ids p) -> is_returned m id = true /\ ~ In id (ids_of es')) ->
+  incl es' (entries s) -> NoDup (ids_of es') ->
+  exists m', mon_step m (ERet t RPub) = MOk m' /\ Inv (release_to (set_entries s es') t Idle) m'.
+Proof.
+  intros s m t es' p HI Hh Hns Hp1 [tp' [d' Hp2]] Hp3 Hids Hincl Hnd.
+  eexists. split.
+  { unfold mon_step. rewrite Hp1, Hp2, Hp3. reflexivity. }
+  apply (inv_release s m t es' Idle _ HI); try assumption; try reflexivity.
+  - left. reflexivity.
+  - intros t' Hn. cbn. rewrite lookup_remove_key. destruct (t =? t') eqn:E; [lia|reflexivity].
+  - unfold pend_ok. erewrite gp_eq by reflexivity. cbn. rewrite lookup_remove_key, Z.eqb_refl. reflexivity.
+  - cbn. apply mark_dead_all_len.
+  - cbn. apply mark_dead_all_nodup. exact (i_dead_nd _ _ HI).
+  - intros id n H. cbn in H. rewrite mark_dead_all_lookup in H.
+    destruct (lookup (m_dead m) id) eqn:E; [left; exact H|].
+    destruct (zmem id (p_ids p)) eqn:Ez; [|discriminate]. right. inversion H.
+    apply zmem_In in Ez. destruct (Hids id Ez) as [Hr Hni].
+    rewrite (i_pubs_len _ _ HI).
+    apply (dead_ok_intro s m); try reflexivity; try exact HI.
+    + left. exact Hr.
+    + exact Hni.
+    + intros t' tp c Hs. destruct (Z.eq_dec t t') as [<-|Hn].
+      * exfalso. unfold sub_pending in Hs. erewrite gp_eq in Hs by reflexivity. destruct Hs; discriminate.
+      * exact (proj1 (subp_neq (release_to (set_entries s es') t Idle) s t Idle t' id tp c eq_refl Hn) Hs).
+Qed.
+
+Lemma inv_fan_done : forall s m t tp d pr, Inv s m -> get_pc s t = PubFan tp d [] pr ->
+  exists m', mon_run m (snd (step_task s t)) = MOk m' /\ Inv (fst (step_task s t)) m'.
+Proof.
+  intros s m t tp d pr HI Hpc. unfold step_task. rewrite Hpc. cbn [acquired].
+  pose proof (i_pend _ _ HI t) as Hp. unfold pend_ok in Hp. rewrite Hpc in Hp.
+  destruct Hp as [p [Hp1 [Hp2 [Hp3 Hp4]]]].
+  assert (Hh : holding (get_pc s t) = true) by (rewrite Hpc; reflexivity).
+  assert (Hns : forall id tp c, get_pc s t <> SubHold id tp c) by (intros; rewrite Hpc; discriminate).
+  destruct pr as [|x pr]; cbn [fst snd mon_run].
+  - destruct (inv_pub_return s m t (entries s) p HI Hh Hns Hp1 Hp2 Hp3) as [m' [H1 H2]].
+    + intros id Hin. destruct (Hp4 id Hin) as [Hr [H|[[]|[e [[] _]]]]]. tauto.
+    + apply incl_refl.
+    + exact (i_ent_nd _ _ HI).
+    + exists m'. rewrite H1. split; [reflexivity|exact H2].
+  - exists m. split; [reflexivity|].
+    refine (inv_release s m t (entries s) (PruneWait (x :: pr)) m HI Hh Hns _ _ _ _ _ _ _ _ _ _ _ _ _); try reflexivity.
+    + apply incl_refl.
+    + exact (i_ent_nd _ _ HI).
+    + right. eexists. reflexivity.
+    + unfold pend_ok. erewrite gp_eq by reflexivity. exists p. split; [exact Hp1|]. split; [exact Hp2|]. split; [exact Hp3|].
+      intros id Hin. destruct (Hp4 id Hin) as [Hr [H|[H|[e [[] _]]]]]; split; try assumption; [left|right; left]; assumption.
+    + exact (i_dead_nd _ _ HI).
+    + intros id n H. left. exact H.
+Qed.
+
+Lemma inv_prune_hold : forall s m t pr, Inv s m -> get_pc s t = PruneHold pr ->
+  exists m', mon_run m (snd (step_task s t)) = MOk m' /\ Inv (fst (step_task s t)) m'.
+Proof.
+  intros s m t pr HI Hpc. unfold step_task. rewrite Hpc. cbn [acquired fst snd mon_run].
+  pose proof (i_pend _ _ HI t) as Hp. unfold pend_ok in Hp. rewrite Hpc in Hp.
+  destruct Hp as [p [Hp1 [Hp2 [Hp3 Hp4]]]].
+  assert (Hh : holding (get_pc s t) = true) by (rewrite Hpc; reflexivity).
+  assert (Hns : forall id tp c, get_pc s t <> SubHold id tp c) by (intros; rewrite Hpc; discriminate).
+  set (f := fun e => negb (zmem (e_id e) pr)).
+  destruct (inv_pub_return s m t (filter f (entries s)) p HI Hh Hns Hp1 Hp2 Hp3) as [m' [H1 H2]].
+  - intros id Hin. destruct (Hp4 id Hin) as [Hr [H|[H|[e [[] _]]]]]; split; try assumption.
+    + intro H0. apply H. eapply filter_ids_incl. exact H0.
+    + apply filter_ids_notin. intros e He. unfold f. subst id. apply zmem_In in H. rewrite H. reflexivity.
+  - intros e He. apply filter_In in He. tauto.
+  - apply filter_ids_nodup. exact (i_ent_nd _ _ HI).
+  - exists m'. rewrite H1. split; [reflexivity|exact H2].
 Qed.
